@@ -122,7 +122,7 @@ type areq struct {
 }
 
 func xmlAttrEsc(s string) string {
-	r := strings.NewReplacer("&", "&amp;", "<", "&lt;", "\"", "&quot;", "\n", "&#xA;", "\r", "&#xD;", "\t", "&#x9;")
+	r := strings.NewReplacer("&", "&amp;", "<", "&lt;", ">", "&gt;", "\"", "&quot;", "\n", "&#xA;", "\r", "&#xD;", "\t", "&#x9;")
 	return r.Replace(s)
 }
 
